@@ -47,6 +47,7 @@ type Engine struct {
 	overlayFiles []string
 	loadTime   time.Duration
 	cpuSem     chan struct{}
+	noFacts    bool
 }
 
 func (e *Engine) fnStat(fn *ssa.Function) *fnStat {
@@ -174,6 +175,7 @@ type Summary struct {
 	Assumptions  map[string]bool
 	PathsWithObl int
 	Observations []string
+	Wanted       map[string]bool
 }
 
 type ExploreCfg struct {
@@ -270,6 +272,12 @@ func (e *Engine) explore(harness string, cfg ExploreCfg) *Summary {
 						unsSeen[u] = true
 						sum.Unsupported = append(sum.Unsupported, u)
 					}
+				}
+				for _, w := range res.Wanted {
+					if sum.Wanted == nil {
+						sum.Wanted = map[string]bool{}
+					}
+					sum.Wanted[w] = true
 				}
 				for a := range res.Assumptions {
 					sum.Assumptions[a] = true
